@@ -2,6 +2,7 @@
 //! verif-harness: runs the real aiken/uplc code next to the Lean models.
 //!   verif-harness <sub-command> [--seed N] [--tier quick|thorough] [--out file] [--replay file]
 mod c15;
+mod c19;
 mod driver;
 mod prng;
 mod report;
@@ -41,6 +42,9 @@ fn main() {
                 ctx.replay = Some(args[i + 1].clone());
                 i += 1;
             }
+            "--n" => {
+                i += 1; // parsed by the sub-command
+            }
             other => panic!("unknown argument {other}"),
         }
         i += 1;
@@ -49,6 +53,7 @@ fn main() {
     std::panic::set_hook(Box::new(|_| {}));
     let rep = match sub.as_str() {
         "c15-names" => c15::names(&ctx),
+        "c19-tx" => c19::run(&ctx),
         other => {
             eprintln!("unknown sub-command {other}");
             std::process::exit(2);
